@@ -355,7 +355,8 @@ def _kernels(ctx, model):
     if mem is None or mem.kind != "func":
         raise AnalysisError("EvaluationMapper.map_polynomial not found")
     hshapes = kernels.DEEP_EXPONENT_SHAPES if deep else kernels.EXPONENT_SHAPES
-    wit = kernels.horner_numeric_rule(mem.node, shapes=hshapes)
+    wit = kernels.horner_numeric_rule(mem.node, shapes=hshapes,
+                                      class_node=mem.owner.node)
     ctx.ob("P/EvaluationMapper.map_polynomial/value", not wit,
            mem.owner.module.loc(mem.node),
            f"evaluates to sum coeff * base**exp on {len(hshapes)}"
